@@ -94,6 +94,7 @@ func optsString(os []httphead.Option) string {
 }
 
 type hsClient struct {
+	HTTPHeader bool // the extra headers are an http.Header of eight names given through ws.HandshakeHeaderHTTP
 	Protocols  []string
 	Exts       []extSpec
 	Header     string
@@ -113,8 +114,9 @@ type hsClient struct {
 }
 
 type hsServer struct {
-	Kind         int // 0 Upgrader 1 HTTPUpgrader 2 DebugUpgrader
-	Proto        int // 0 nil 1 accept none 2 accept ProtoVal 3 accept all
+	HTTPHeader   bool // Upgrader only: extra response headers as an http.Header of eight names through ws.HandshakeHeaderHTTP
+	Kind         int  // 0 Upgrader 1 HTTPUpgrader 2 DebugUpgrader
+	Proto        int  // 0 nil 1 accept none 2 accept ProtoVal 3 accept all
 	ProtoVal     string
 	ProtoCustom  bool
 	Ext          int // 0 nil 1 Negotiate echo 2 Negotiate wsflate.Extension 3 Negotiate rejects 4 deprecated Extension 5 Negotiate fixed params
@@ -213,6 +215,12 @@ func drawHS(r *eng.Run) (hsClient, hsServer) {
 	if r.T.Chance(sim.LCfg, 1, 4) {
 		c.Host = "override.example:8080"
 	}
+	if r.T.Chance(sim.LCfg, 1, 8) {
+		// The extra headers are given as an http.Header (eight names)
+		// through the HandshakeHeaderHTTP adapter.
+		c.Header, c.Odd, c.HTTPHeader = "", false, true
+		r.Probe("extra_headers_through_the_http_header_adapter")
+	}
 	c.RBuf = drawBufHS(r)
 	c.WBuf = drawBufHS(r)
 	c.StatusCb = r.T.Chance(sim.LCfg, 1, 3)
@@ -258,6 +266,10 @@ func drawHS(r *eng.Run) (hsClient, hsServer) {
 		s.Reject = 1 + r.T.Int(sim.LFault, 4)
 		s.RejectStatus = []int{0, 400, 401, 403, 500, 503}[r.T.Int(sim.LFault, 6)]
 		s.RejectBare = s.RejectStatus != 0 && r.T.Chance(sim.LFault, 1, 3)
+	}
+	if s.Kind != 1 && r.T.Chance(sim.LCfg, 1, 8) {
+		s.Header, s.HTTPHeader = "", true
+		r.Probe("extra_headers_through_the_http_header_adapter")
 	}
 	if s.Kind != 1 && s.Reject == 0 && r.T.Chance(sim.LCfg, 1, 4) {
 		s.BeforeHeader = "X-Before: upgrade\r\n"
@@ -462,6 +474,9 @@ func (s hsServer) upgrader() ws.Upgrader {
 	if s.Header != "" {
 		u.Header = ws.HandshakeHeaderString(s.Header)
 	}
+	if s.HTTPHeader && s.Header == "" {
+		u.Header = ws.HandshakeHeaderHTTP(manyHeaders("X-Server-"))
+	}
 	switch s.Reject {
 	case 1:
 		u.OnHost = func([]byte) error { return s.rejectErr() }
@@ -613,6 +628,9 @@ func (c hsClient) dialer() ws.Dialer {
 	}
 	if c.Header != "" {
 		d.Header = ws.HandshakeHeaderString(c.Header)
+	}
+	if c.HTTPHeader && c.Header == "" { // (a scenario that adds header lines of its own uses the string form)
+		d.Header = ws.HandshakeHeaderHTTP(manyHeaders("X-Client-"))
 	}
 	if c.Timeout {
 		d.Timeout = time.Hour
@@ -802,10 +820,20 @@ func pipeFor(r *eng.Run, in []byte, seg int) *Pipe {
 // scripted pipes (needed to repeat a Dial with the same nonce).
 var clientSeed *int64
 
+// manyHeaders is an application's http.Header with eight names.
+func manyHeaders(prefix string) http.Header {
+	h := http.Header{}
+	for i, n := range []string{"Alpha", "Bravo", "Charlie", "Delta", "Echo", "Foxtrot", "Golf", "Hotel"} {
+		h.Set(prefix+n, strings.Repeat(string(rune('a'+i)), 3+i))
+	}
+	return h
+}
+
 func init() {
 	eng.RunStartHooks = append(eng.RunStartHooks, func() {
 		clientSeed, lastStatusSeen = nil, nil
 		lastExts, lastExtsCopy = nil, nil
+		wsutil.DefaultWriteBuffer = 4096
 	})
 }
 
